@@ -16,6 +16,7 @@ import (
 	"strings"
 	"sync"
 
+	"github.com/google/uuid"
 	"github.com/nspcc-dev/neo-go/pkg/core/transaction"
 	"github.com/nspcc-dev/neo-go/pkg/crypto/keys"
 	"github.com/nspcc-dev/neo-go/pkg/neorpc/result"
@@ -49,6 +50,12 @@ func halt(items ...stackitem.Item) *result.Invoke {
 
 func fault(exc string) *result.Invoke {
 	return &result.Invoke{State: "FAULT", GasConsumed: 1, FaultException: exc, Stack: []stackitem.Item{}}
+}
+
+// emptyIter is the answer of a method returning an iterator without elements
+func emptyIter() *result.Invoke {
+	id, sid := uuid.New(), uuid.New()
+	return &result.Invoke{State: "HALT", GasConsumed: 1, Stack: []stackitem.Item{stackitem.NewInterop(result.Iterator{ID: &id})}, Session: sid}
 }
 
 func (c *chain) note(s string) {
